@@ -103,15 +103,24 @@ def _to_py(v):
     return v
 
 
-def _map(f, dtype=None):
+def _map(f, dtype=None, inexact=False, abs_=False):
+    """element-wise function; dtype: class of the result (None: that of the argument); inexact: numpy computes in floating point, so an
+    integer / boolean argument gives a float result (complex stays complex); abs_: complex argument -> float result"""
     def g(interp, x, *rest, **kw):
         x = norm(x)
         if isinstance(x, SeriesVal):
             return SeriesVal(g(interp, x.arr), x.name)
+        dt = dtype
+        if (inexact or abs_) and isinstance(x, (A.Arr, A.Masked, Ref, list, tuple)):
+            src = x.dtype if isinstance(x, (A.Arr, A.Masked)) else _arr(x, interp).dtype
+            if inexact:
+                dt = "complex" if src == "complex" else "float"
+            elif src == "complex":
+                dt = "float"
         if isinstance(x, A.Masked):
-            return A.unop(f, x, dtype=dtype)
+            return A.unop(f, x, dtype=dt)
         if isinstance(x, (A.Arr, Ref, list, tuple)):
-            return A.unop(f, _arr(x, interp), dtype=dtype)
+            return A.unop(f, _arr(x, interp), dtype=dt)
         if isinstance(x, A.Masked):
             return A.ew(f, x, dtype=dtype)
         return f(x)
@@ -144,6 +153,11 @@ def _abs(v):
     return sv.absv(v)
 
 
+def _is_intlike(v):
+    v = norm(v)
+    return isinstance(v, (bool, int)) or (isinstance(v, SV) and (v.is_int or v.is_bool))
+
+
 def _float_of(v):
     v = norm(v)
     if isinstance(v, Cx):
@@ -172,23 +186,24 @@ class Lib:
         np["inf"] = Fraction(10 ** 30)   # only used as print option / never in arithmetic under contract
         np["newaxis"] = None
         np["sqrt"] = LibFunc("np.sqrt", _map(sv.sqrt, "float"))
-        np["exp"] = LibFunc("np.exp", _map(sv.exp))
+        np["exp"] = LibFunc("np.exp", _map(sv.exp, inexact=True))
         np["log"] = LibFunc("np.log", _map(sv.log, "float"))
         np["cos"] = LibFunc("np.cos", _map(sv.cos, "float"))
         np["sin"] = LibFunc("np.sin", _map(sv.sin, "float"))
         np["arccos"] = LibFunc("np.arccos", _map(sv.arccos, "float"))
         np["square"] = LibFunc("np.square", _map(lambda x: sv.mul(x, x)))
         np["conj"] = LibFunc("np.conj", _map(_conj))
-        np["real"] = LibFunc("np.real", _map(_re, "float"))
-        np["abs"] = LibFunc("np.abs", _map(_abs))
+        np["real"] = LibFunc("np.real", self.np_real)
+        np["abs"] = LibFunc("np.abs", _map(_abs, abs_=True))
         np["absolute"] = np["abs"]
         np["rint"] = LibFunc("np.rint", _map(sv.rint, "float"))
         np["sign"] = LibFunc("np.sign", _map(lambda x: ite(sv.cmp(">", x, 0), 1, lambda: ite(sv.cmp("<", x, 0), -1, 0))))
         np["maximum"] = LibFunc("np.maximum", lambda i, a, b: A.ew(sv.maxv, a if sv.is_scalar(norm(a)) else _arr(a, i), b if sv.is_scalar(norm(b)) else _arr(b, i)))
         np["minimum"] = LibFunc("np.minimum", lambda i, a, b: A.ew(sv.minv, a if sv.is_scalar(norm(a)) else _arr(a, i), b if sv.is_scalar(norm(b)) else _arr(b, i)))
-        np["floor"] = LibFunc("np.floor", _map(lambda x: sv.to_real(sv.floor(x)), "float"))
-        np["ceil"] = LibFunc("np.ceil", _map(lambda x: sv.neg(sv.to_real(sv.floor(sv.neg(x)))), "float"))
-        np["trunc"] = LibFunc("np.trunc", _map(lambda x: sv.to_real(sv.trunc(x)), "float"))
+        # numpy >= 2.1: floor / ceil / trunc of integer (and boolean) input keep the integer dtype
+        np["floor"] = LibFunc("np.floor", _map(lambda x: x if _is_intlike(x) else sv.to_real(sv.floor(x))))
+        np["ceil"] = LibFunc("np.ceil", _map(lambda x: x if _is_intlike(x) else sv.neg(sv.to_real(sv.floor(sv.neg(x))))))
+        np["trunc"] = LibFunc("np.trunc", _map(lambda x: x if _is_intlike(x) else sv.to_real(sv.trunc(x))))
         np["round"] = LibFunc("np.round", self.np_round)
         np["around"] = np["round"]
         np["array"] = LibFunc("np.array", self.np_array)
@@ -241,11 +256,11 @@ class Lib:
         np["c_"] = NpCUnderscore()
         np["linspace"] = LibFunc("np.linspace", self.np_linspace)
         np["save"] = LibFunc("np.save", lambda i, path, a, **k: cur().trace.append(("np.save", path, A.copy(_arr(a, i)), cur().where)))
-        np["savetxt"] = LibFunc("np.savetxt", lambda i, path, a, **k: cur().trace.append(("np.savetxt", path, A.copy(_arr(a, i)), dict(k), cur().where)))
+        np["savetxt"] = LibFunc("np.savetxt", self.np_savetxt)
         np["hstack"] = LibFunc("np.hstack", self.np_hstack)
-        np["ones"] = LibFunc("np.ones", lambda i, shape, dtype=None, **k: A.binop("+", self.np_zeros(i, shape, dtype), 1))
-        np["ones_like"] = LibFunc("np.ones_like", lambda i, a, dtype=None: A.binop("+", self.np_zeros_like(i, a, dtype), 1))
-        np["isclose"] = LibFunc("np.isclose", lambda i, a, b, **k: i.binop("==", a, b))   # A1: floats are reals, tolerance collapses to equality
+        np["ones"] = LibFunc("np.ones", lambda i, shape, dtype=None, **k: self._ones(self.np_zeros(i, shape, dtype)))
+        np["ones_like"] = LibFunc("np.ones_like", lambda i, a, dtype=None: self._ones(self.np_zeros_like(i, a, dtype)))
+        np["isclose"] = LibFunc("np.isclose", lambda i, a, b, **k: i.compare(ast.Eq(), a, b))   # A1: floats are reals, tolerance collapses to equality
         from . import relops
         np["argsort"] = LibFunc("np.argsort", lambda i, a, **k: relops.argsort(_arr(a, i)))
         np["argpartition"] = LibFunc("np.argpartition", lambda i, a, kth, **k: relops.argpartition(_arr(a, i), kth))
@@ -258,6 +273,21 @@ class Lib:
         from . import libext
         libext.load_all(self, self.prop)
 
+    @staticmethod
+    def _ones(z):
+        one = {"float": Fraction(1), "int": 1, "bool": True, "complex": Cx(Fraction(1), Fraction(0))}[z.dtype]
+        return A.new_arr(z.shape, lambda idx: one, z.dtype)
+
+    def np_real(self, interp, x):
+        """np.real: the argument ITSELF for a non-complex array (no copy); for a complex array numpy returns a view of the real parts
+        (modelled as a fresh array through which stores are refused, pyvc.arr._check_storable)"""
+        x = norm(x)
+        if isinstance(x, A.Arr) and x.dtype != "complex":
+            return x
+        if isinstance(x, A.Arr):
+            return self.arr_attr(interp, x, "real")
+        return _map(_re, "float")(interp, x)
+
     def _red_operand(self, interp, a):
         a = norm(a)
         if isinstance(a, A.Masked):
@@ -266,6 +296,8 @@ class Lib:
 
     # ------------------------------------------------------------------ numpy functions
     def np_array(self, interp, data, dtype=None, **kw):
+        if kw.get("copy", True) is not True:
+            raise EngineError("np.array(..., copy=False / None): may return the argument itself")
         dt = A.norm_dtype(dtype.name if isinstance(dtype, DType) else dtype) if dtype is not None else None
         data = norm(data)
         from .text import TokList, toklist_to_array
@@ -294,6 +326,14 @@ class Lib:
         if isinstance(shape, Ref):
             shape = tuple(interp.iter_concrete(shape))
         dt = "float" if dtype is None else A.norm_dtype(dtype.name if isinstance(dtype, DType) else dtype)
+        for d in (shape if isinstance(shape, (tuple, list)) else (shape,)):
+            d = norm(d)
+            if isinstance(d, A.Arr) and d.shape == ():
+                d = norm(d.get(()))
+            if isinstance(d, Fraction) or (isinstance(d, SV) and d.is_real):
+                raise PyRaise("TypeError", "'float' object cannot be interpreted as an integer (array dimension)")
+            if is_conc(d) and d < 0:
+                raise PyRaise("ValueError", "negative dimensions are not allowed")
         return A.zeros(shape, dt)
 
     def np_zeros_like(self, interp, a, dtype=None):
@@ -394,6 +434,8 @@ class Lib:
         dt = "int" if w is None else "float"
         if weights is not None and getattr(weights, "dtype", None) == "complex":
             dt = "complex"
+        elif weights is not None and getattr(weights, "dtype", None) == "int":
+            dt = "int"          # numpy: integer weights give integer sums
         counts = A.new_arr((B,), cnt, dt)
         edges = A.new_arr((A.simp(sv.add(B, 1)),), lambda idx: edge(idx[0]), "float")
         return (counts, edges)
@@ -425,12 +467,25 @@ class Lib:
                 for l, r in zip(lens, readers):
                     chain.append((off, l, r))
                     off = sv.add(off, l)
-                out = chain[-1][2]((A.simp(sv.sub(x, chain[-1][0])),))
+                out = (lambda: chain[-1][2]((A.simp(sv.sub(x, chain[-1][0])),)))
                 for o, l, r in reversed(chain[:-1]):
-                    out = ite(sv.cmp("<", x, sv.add(o, l)), (lambda r=r, o=o: r((A.simp(sv.sub(x, o)),))), out)
-                return out
+                    out = (lambda r=r, o=o, l=l, nxt=out: ite(sv.cmp("<", x, sv.add(o, l)), (lambda: r((A.simp(sv.sub(x, o)),))), nxt))
+                return out()
             return A.new_arr((A.simp(total),), fn, dt)
         return self.np_column_stack(interp, tup)
+
+    def np_savetxt(self, interp, path, a, **k):
+        """write event; numpy requires one % format per column for a multi-format string (ValueError otherwise)"""
+        arr = _arr(a, interp)
+        fmt = k.get("fmt")
+        if isinstance(fmt, str):
+            nfmt = fmt.replace("%%", "").count("%")
+            ncol = arr.shape[1] if arr.ndim == 2 else 1
+            if nfmt > 1:
+                if is_conc(ncol) and nfmt != int(ncol):
+                    raise PyRaise("ValueError", f"fmt has wrong number of % formats: {fmt}")
+                cur().require(sv.cmp("==", nfmt, ncol), "np.savetxt:one-%-format-per-column")
+        cur().trace.append(("np.savetxt", path, A.copy(arr), dict(k), cur().where))
 
     def np_array2string(self, interp, a, **kw):
         """ASSUMED: np.array2string of a 2-D integer array under threshold=linewidth=inf prints one bracketed row per line"""
@@ -532,9 +587,13 @@ class Lib:
                     raise EngineError("np.arange with a step other than +1 / -1")
         # number of elements: hi - lo for step +1, lo - hi for step -1 (numpy gives max(., 0); a negative count is excluded by the
         # side obligation below, so that the closed form is exact)
-        n = A.simp(sv.sub(hi, lo)) if step == 1 else A.simp(sv.sub(lo, hi))
-        if len(args) > 2 and not is_conc(n):
-            cur().require(sv.cmp(">=", n, 0), "arange-count-nonnegative")
+        diff = sv.sub(hi, lo) if step == 1 else sv.sub(lo, hi)
+        # length ceil(diff) (real arguments: step +1 only), never negative (numpy: an empty array when hi <= lo)
+        n = A.simp(diff if not real_args else sv.neg(sv.floor(sv.neg(diff))))
+        if is_conc(n):
+            n = max(int(n), 0)
+        else:
+            cur().require(sv.cmp(">=", n, 0), "nonneg-dim")
         dt = "float" if (real_args or as_float) else "int"
         if step == 1:
             fn = (lambda idx: A.simp(sv.add(lo, idx[0])))
@@ -811,10 +870,13 @@ class Lib:
             r = a.reader()
             if a.dtype != "complex":
                 return a
-            return A.new_arr(a.shape, lambda idx: _re(r(idx)), "float")
+            # numpy: a VIEW of the real parts; modelled as a fresh array that refuses stores
+            return A.new_arr(a.shape, lambda idx: _re(r(idx)), "float", **({} if A.is_temporary(a) else {"nostore": "<complex array>.real"}))
         if name == "imag":
             r = a.reader()
-            return A.new_arr(a.shape, lambda idx: _im(r(idx)), "float")
+            if a.dtype != "complex":
+                return A.new_arr(a.shape, lambda idx: _im(r(idx)), a.dtype if a.dtype != "bool" else "bool", readonly=True)   # numpy: read-only zeros
+            return A.new_arr(a.shape, lambda idx: _im(r(idx)), "float", **({} if A.is_temporary(a) else {"nostore": "<complex array>.imag"}))
         if name == "size":
             return A.count_elems(a)
         return BoundLib("arr." + name, a)
@@ -910,9 +972,13 @@ class Lib:
         if meth == "copy":
             return A.copy(a)
         if meth == "astype":
-            dt = args[0]
+            if kwargs.get("copy", True) is not True:
+                raise EngineError("astype(copy=False): may return the array itself")
+            dt = args[0] if args else kwargs["dtype"]
             return A.astype(a, dt.name if isinstance(dt, DType) else dt)
         if meth in ("conj", "conjugate"):
+            if a.dtype != "complex":
+                return a             # ndarray.conj() of a non-complex array is the array itself (no copy)
             return A.unop(_conj, a)
         if meth == "tolist":
             def tl(x):
@@ -920,8 +986,10 @@ class Lib:
             return tl(A.to_list(a))
         if meth == "reshape":
             return self.reshape(interp, a, args if len(args) != 1 or not isinstance(args[0], (tuple, Ref)) else interp.iter_concrete(args[0]))
-        if meth == "ravel" or meth == "flatten":
+        if meth == "ravel":
             return self.reshape(interp, a, (-1,))
+        if meth == "flatten":
+            return A.copy(self.reshape(interp, a, (-1,)))       # always a copy
         if meth == "trace":
             return A.trace(a)
         if meth == "dot":
@@ -950,8 +1018,8 @@ class Lib:
         raise EngineError(f"ndarray.{meth}")
 
     def reshape(self, interp, a, newshape):
-        """row-major reshape (fresh array in this model; numpy may return a view — stores through the
-        result are not supported)"""
+        """row-major reshape: the array itself for an unchanged shape; otherwise a fresh array that REFUSES stores (numpy returns a view
+        of a contiguous argument, so a store through the result would have to reach the argument)"""
         newshape = [norm(x) for x in newshape]
         old = a.shape
         total = A.count_elems(a)
@@ -987,7 +1055,7 @@ class Lib:
                 acc = sv.mul(acc, d)
             return list(reversed(s))
         if len(old) == len(newshape) and all(A.dim_eq_syntactic(x, y) for x, y in zip(old, newshape)):
-            return A.copy(a)
+            return a if a.view is None else A.getitem(a, Ellipsis)      # same shape: numpy returns a view of the same elements (alias)
         so, sn = strides(old), strides(newshape)
         if not all(is_conc(d) for d in old[1:]) or not all(is_conc(d) for d in newshape[1:]):
             raise EngineError("reshape with symbolic trailing dims")
@@ -1006,11 +1074,15 @@ class Lib:
                     out.append(A.simp(q))
                     rem = sv.sub(rem, sv.mul(q, s))
             return r(tuple(out))
-        return A.new_arr(tuple(newshape), fn, a.dtype)
+        # numpy returns a VIEW when the argument is contiguous (a copy otherwise): the model allocates a fresh array and refuses
+        # stores through it (pyvc.arr._check_storable) instead of performing them on a copy the argument never sees
+        # (a temporary argument — an expression result nothing else refers to — cannot be observed: plain fresh array)
+        return A.new_arr(tuple(newshape), fn, a.dtype, **({} if A.is_temporary(a) else {"nostore": "reshape / ravel"}))
 
     def list_method(self, interp, ref, meth, args, kwargs):
         c = ref.content
         if meth == "append":
+            A.mark_named(args[0])
             if isinstance(c, A.SeqVal) and not sv.is_scalar(norm(args[0])) and not isinstance(args[0], A.Arr):
                 # an object / tuple appended to a symbolic-length list (arrays: element-wise merge below)
                 from .loops import AppendedSeq
@@ -1201,10 +1273,11 @@ def _symset_len_eq(sl, k):
 def _b_int(interp, v=0, *a):
     v = norm(v)
     if isinstance(v, A.Arr):
-        if all(A.dim_conc(d) and d == 1 for d in v.shape):
-            v = v.get(tuple(0 for _ in v.shape))
+        if v.shape == ():
+            v = v.get(())
         else:
-            raise PyRaise("TypeError", "only length-1 arrays can be converted")
+            # numpy >= 2.5: TypeError "only 0-dimensional arrays can be converted to Python scalars" (also for one element)
+            raise PyRaise("TypeError", "only 0-dimensional arrays can be converted to Python scalars")
     if isinstance(v, str):
         from .text import int_of
         return int_of(v)
@@ -1232,7 +1305,7 @@ def _b_float(interp, v=0):
 def _b_abs(interp, v):
     v = norm(v)
     if isinstance(v, A.Arr):
-        return A.unop(_abs, v)
+        return A.unop(_abs, v, dtype="float" if v.dtype == "complex" else None)
     return sv.absv(v)
 
 
